@@ -126,8 +126,9 @@ def defaultRetryCount : Nat := 3
 def counterparty (ch : Chan) : Option Chan :=
   if ch = "channel-0" then some "channel-1" else if ch = "channel-1" then some "channel-0" else none
 
-def hasPrefix (d : Denom) (ch : Chan) : Bool := (ch ++ "/").isPrefixOf d
-def stripPrefix (d : Denom) (ch : Chan) : Denom := (d.drop (ch.length + 1)).toString
+-- over `List Char`, so that concrete witnesses evaluate in the kernel (`decide`)
+def hasPrefix (d : Denom) (ch : Chan) : Bool := (ch ++ "/").toList.isPrefixOf d.toList
+def stripPrefix (d : Denom) (ch : Chan) : Denom := String.ofList (d.toList.drop ((ch ++ "/").toList.length))
 def validAddr (a : Addr) : Bool := a != "bad" && a != ""
 def blockedAddr (a : Addr) : Bool := a == "blocked"
 
